@@ -532,8 +532,27 @@ def fail_key(c, base, kind):
     return 'C05:%s:%s:%s' % (kind, c['problem'], '+'.join(w) or 'same-options')
 
 
+def _cap_failures(R, per_key=3):
+    """hcommon keeps at most 200 failures: never let one (possibly known)
+    class of failing input crowd out another one"""
+    if getattr(R, '_capped', False):
+        return
+    R._capped = True
+    R._per_key = {}
+    orig = R.prop_fail
+
+    def prop_fail(key, case, demand, observed):
+        n = R._per_key.get(key, 0)
+        R._per_key[key] = n + 1
+        R.count('fail:' + key)
+        if n < per_key:
+            orig(key, case, demand, observed)
+    R.prop_fail = prop_fail
+
+
 def judge(results, R, seed):
     """the property's own predicate on the real runs"""
+    _cap_failures(R)
     by = {}
     for r in results:
         by.setdefault(r['cfg']['problem'], []).append(r)
@@ -766,27 +785,23 @@ def quick_cfgs(rng):
     p = 'wall'
     C = [cfg(p),                                            # baseline
          cfg(p, rep=1),                                     # reproducible
-         cfg(p, 'box', cache=True),
          cfg(p, 'tree', openmp=True, threads=4),
          cfg(p, 'tree', openmp=True, threads=4, rep=1),
-         cfg(p, 'sh', reorder=1),
-         cfg(p, 'ci', openmp=True, threads=3, cache=True, reorder=2),
-         # sorted group
-         cfg(p, 'll', sort=True),
-         cfg(p, 'comp_tree', sort=True, cache=True, openmp=True, threads=16),
-         cfg(p, 'strat_hash', sort=True, openmp=True, threads=2, reorder=1),
-         cfg(p, 'esh', sort=True, cache=True),
-         ]
-    # two seed-dependent extras
-    for _ in range(3):
-        omp = rng.random() < 0.5
-        C.append(cfg(p, rng.choice([n for n in NNPS_ALL if n not in ZORDER_FAMILY]),
-                     cache=rng.random() < 0.5, openmp=omp,
-                     threads=rng.choice([1, 2, 5, 8, 16]) if omp else 1,
-                     reorder=rng.choice([None, 1, 3]), sort=rng.random() < 0.5))
-    # the z-order family on the multi-array problem (known to inherit C01)
-    C.append(cfg(p, 'sfc'))
-    C.append(cfg(p, 'strat_sfc', sort=True))
+         cfg(p, 'll', sort=True)]                           # sorted reference
+    # every --nnps value once sorted and once unsorted, the other options
+    # drawn from the seed
+    for nn in NNPS_ALL:
+        for srt in (True, False):
+            omp = rng.random() < 0.6
+            ro = rng.choice([None, None, 1, 2, 3])
+            if nn in NO_REORDER and rng.random() < 0.8:
+                ro = None       # (known finding: no re-ordering for these)
+            C.append(cfg(p, nn, cache=rng.random() < 0.5, openmp=omp,
+                         threads=rng.choice([2, 3, 5, 8, 16]) if omp else 1,
+                         reorder=ro, sort=srt))
+    C.append(cfg(p, 'ci', openmp=True, threads=3, cache=True, reorder=2))
+    C.append(cfg(p, 'comp_tree', sort=True, cache=True, openmp=True, threads=16))
+    C.append(cfg(p, 'sh', reorder=1))   # known finding, reproduced every run
     T = [cfg('tie', 'll', steps=1),
          cfg('tie', 'box', cache=True, openmp=True, threads=4, steps=1),
          cfg('tie', 'tree', sort=True, openmp=True, threads=3, steps=1),
@@ -844,10 +859,16 @@ def thorough_cfgs(rng):
     return dedup(C + T)
 
 
-def search_cfgs(rng):
+def search_cfgs(rng, aimed=()):
     """wider failing-input search (used when an obligation broke or model and
-    code disagree): all problems, random configurations"""
+    code disagree): all problems, random configurations, plus - aimed at what
+    changed - the options of every tie configuration that disagreed"""
     C = []
+    for t in aimed:
+        for p in PROBLEMS:
+            C.append(cfg(p, t['nnps'], t['cache'], t['openmp'], t['threads'],
+                         t['reorder'], t['sort']))
+            C.append(cfg(p, t['nnps'], sort=t['sort']))
     for p in PROBLEMS:
         C.append(cfg(p))
         C.append(cfg(p, 'll', sort=True))
@@ -912,7 +933,9 @@ def main():
     run_tie(res, R, rng)
     if a.broken or R.d['disagreements']:
         rng2 = random.Random(a.seed + 12345)
-        extra = search_cfgs(rng2)
+        aimed = [d['case']['cfg'] for d in R.d['disagreements']
+                 if isinstance(d.get('case'), dict) and 'cfg' in d['case']]
+        extra = search_cfgs(rng2, dedup([dict(c, problem='tie') for c in aimed]))
         res2 = run_all(extra, a.seed + 1, a.work, base_idx=len(cfgs))
         n0 = len(R.d['property_failures'])
         judge(res2, R, a.seed + 1)
